@@ -294,6 +294,8 @@ class Evaluator(object):
             if v is None:
                 return self.unknown('recursive constant %s' % name, node)
             return v
+        if isinstance(g, Ext) and g.name in ('math.pi', 'numpy.pi', 'cmath.pi'):
+            return alg.pi()         # `from math import pi`
         return Ref(g)
 
     # -------------------------------------------------------------------------------------------- functions
@@ -369,7 +371,7 @@ class Evaluator(object):
         try:
             out = self.exec_block(func.node.body, env, func)
             if len(self._stack) == 1:
-                self.last_env = out.env if out.env is not None else env
+                self.last_env = out.env if out.env is not None else (getattr(self, '_ret_env', None) or env)
             rets = list(out.returns)
             if out.env is not None:
                 rets.append(([], NONE))
@@ -545,10 +547,28 @@ class Evaluator(object):
                 return Bool(not pos)
             if isinstance(a, Ref) and isinstance(b, Ref):
                 return Bool((ka == kb) == pos)
+            if isinstance(a, Obj) and isinstance(b, Obj) and a.cls is not None and '__eq__' in a.cls.methods and not getattr(self, '_in_eq', False):
+                # the class says what equality is
+                self._in_eq = True
+                try:
+                    r_ = self.invoke(a.cls.methods['__eq__'], [a, b], {}, node)
+                finally:
+                    self._in_eq = False
+                if isinstance(r_, Bool):
+                    return Bool(r_.b == pos)
+                if isinstance(r_, Rat):
+                    return r_ if pos else self.cnot(r_)
             if isinstance(a, Obj) and isinstance(b, Obj) and a.origin and b.origin:
                 if a.origin == b.origin:
                     return Bool(pos)
                 if a.origin.startswith('const:') and b.origin.startswith('const:'):
+                    return Bool(not pos)
+            if isinstance(a, Obj) and isinstance(b, Obj) and a is not b and (a.cls is None or '__eq__' not in a.cls.methods):
+                # without an __eq__ two objects are equal only when they are the same object: one built by a constructor call here is
+                # not a module-level constant (nor another constructed object)
+                built_a, built_b = not a.origin, not b.origin
+                const_a, const_b = bool(a.origin) and a.origin.startswith('const:'), bool(b.origin) and b.origin.startswith('const:')
+                if (built_a and (built_b or const_b)) or (built_b and const_a):
                     return Bool(not pos)
             x, y = sorted([repr(ka), repr(kb)])
             if isinstance(a, Rat) or isinstance(b, Rat):
@@ -609,6 +629,8 @@ class Evaluator(object):
             return Outcome(env)
         if isinstance(st, ast.Return):
             v = self.eval(st.value, env, func) if st.value is not None else NONE
+            if len(self._stack) == 1:
+                self._ret_env = env         # the environment in force at the (last evaluated) return of the outermost function
             return Outcome(None, [([], v)])
         if isinstance(st, ast.Raise):
             return Outcome(None, [])
@@ -637,7 +659,23 @@ class Evaluator(object):
                     self.assign(it.optional_vars, v, env, func)
             return self.exec_block(st.body, env, func)
         if isinstance(st, ast.Try):
+            # `except AttributeError:` around a read of an attribute that a CONSTRUCTED object (its fields are known) does not have: the
+            # handler is what runs
+            n_diag = len(self.diagnostics)
+            env_before = _copy_env(env)
             out = self.exec_block(st.body, env, func)
+            missing = [d_ for d_ in self.diagnostics[n_diag:] if d_[0] == 'attr']
+            if missing:
+                for h in st.handlers:
+                    names_ = []
+                    if h.type is None:
+                        names_ = ['AttributeError']
+                    else:
+                        for x_ in ([h.type] if not isinstance(h.type, ast.Tuple) else h.type.elts):
+                            names_.append(getattr(x_, 'id', getattr(x_, 'attr', '')))
+                    if any(n_ in ('AttributeError', 'Exception', 'BaseException') for n_ in names_):
+                        del self.diagnostics[n_diag:]
+                        return self.exec_block(h.body, env_before, func)
             if out.env is not None and st.orelse:
                 o2 = self.exec_block(st.orelse, out.env, func)
                 return Outcome(o2.env, out.returns + o2.returns, o2.flow)
